@@ -18,6 +18,12 @@ implementation, hash function, options and value equality (`eq`, `mod8`, or the 
 parameters meet in `equal`.  Further hash functions for `Int` keys: `zero one top max` (constants 0, 1, 2^63,
 2^64-1), `mulm` (k times the initial capacity), `neg` (2^64-1-k), `hi` (k shifted left by 32), `pow` (2^(k mod 64)).
 
+Type instantiation: the harness may represent the integer keys / values of a case by other Go types (header `ktype=slice |
+struct | string | pointer`, `vtype=slice`; see harness/c02/types.go) and maps everything back to the integers on the way
+out, so the Model is unaffected — except for the hash function when it is the LIBRARY's function for that type:
+`libslice` = `hash.HashFuncForIntSlice` of `[]int{k, …}` (1 + k mod 3 copies of k), `libstruct` = `HashFuncForInt(k)` xor
+`HashFuncForString(decimal k)`, `libstr` = `HashFuncForString(decimal k)` (`Model/C02Hash.lean`).
+
 Ops (`<i>.` prefix = table i, `b.` = table 1, none = table 0): `put k v`, `get k`, `delete k`, `deleteall`, `size`,
 `isempty`, `all`, `dump`, `probes k`; `equal` (= `equal 0 1`), `equal i j` = `tables[i].Equal(tables[j])`.
 Mutating ops print the result followed by ` | ` and a summary of the internal state (`m n u p` and a 64-bit digest
@@ -52,6 +58,9 @@ def fnv1 (k : Int) : UInt64 := Hash.forInt k
 
 def emod (k : Int) (q : Nat) : UInt64 := UInt64.ofNat (k % (q : Int)).toNat
 
+/-- the bytes of the decimal numeral of `k` (Go `strconv.Itoa`) -/
+def decimalBytes (k : Int) : Hash.Bytes := (toString k).toList.map fun c => UInt8.ofNat c.toNat
+
 def hashOf (name : String) (cap0 : Nat) : Int → UInt64 :=
   match name with
   | "fnv" => fnv1
@@ -67,6 +76,9 @@ def hashOf (name : String) (cap0 : Nat) : Int → UInt64 :=
   | "neg" => fun k => 18446744073709551615 - toU64 k
   | "hi" => fun k => toU64 k <<< 32
   | "pow" => fun k => (1 : UInt64) <<< UInt64.ofNat (k % 64).toNat
+  | "libslice" => fun k => Hash.forIntSlice (List.replicate (1 + (k % 3).toNat) k)
+  | "libstruct" => fun k => Hash.forInt k ^^^ Hash.forString (decimalBytes k)
+  | "libstr" => fun k => Hash.forString (decimalBytes k)
   | _ => fnv1
 
 /-! ### replica of `rand.Shuffle` over the hook's source -/
